@@ -723,7 +723,12 @@ class Writer(object):
         if k == 'ref':
             return '@' + n[1] + ('' if n[2] is None else ' ' + self.string(n[2]))
         if k == 'xstr':
-            return '%s(%s)' % (n[1], self.string(n[2]))
+            payload = n[2]
+            if n[1] == 'hex' and re.search('[a-f]', payload):
+                # hexadecimal digits may be written in either case; the bytes are the same
+                if self.pick('hex-case', ['lower', 'upper']) == 'upper':
+                    payload = payload.upper()
+            return '%s(%s)' % (n[1], self.string(payload))
         if k == 'date':
             return '%04d-%02d-%02d' % n[1:]
         if k == 'time':
